@@ -73,6 +73,9 @@ theorem setCollNil_ok {del : ObjId → St → Res} {o : ObjId} {c : Attr} {st st
         generalize (List.range st.store.n).filter (fun x => st.store.mem o c x && !([] : List ObjId).contains x) = toRemove at *
         have e2 := hasB_coll_eq (sch := sch) (s := st.store) hc hcd
         simp only [rewriteRow_store]
+        have hfr : finalRow (!rd.isColl && cd.cascade) [] st2.store = fun _ => false := by
+          funext x; simp [finalRow]
+        rw [hfr]
         clear h
         rename_i hnoteq
         clear hnoteq
